@@ -75,7 +75,7 @@ def generated(spec):
     """spec: states (tuple of ids in declaration order), n_const, n_inter,
     derived (bool) -> SBML text"""
     states = list(spec['states'])
-    consts = CONST_IDS[:spec['n_const']]
+    consts = spec.get('const_ids', CONST_IDS)[:spec['n_const']]
     inters = INTER_IDS[:spec['n_inter']]
     params = []
     # declaration order: interleave constants and states
@@ -161,9 +161,17 @@ def check_binding(B, m, tag, times, rename=None, outputs=None, reduced=None,
     st = sorted(v.qname() for v in model.states())
     co = sorted(v.qname() for v in model.variables(const=True)
                 if v.is_literal())
-    B.fact('%s: parameters = sorted states then sorted literal constants'
-           % tag, myo == st + co, '%r vs %r' % (myo, st + co))
-    if myo != st + co:
+    if any(x != x.lower() for x in st + co):
+        # names differing in capitalisation: which alphabetical order is
+        # used is not part of the claim, only states first, constants after
+        ok = sorted(myo[:len(st)]) == st and sorted(myo[len(st):]) == co
+        B.fact('%s: parameters = the states, then the literal constants'
+               % tag, ok, '%r vs %r' % (myo, st + co))
+    else:
+        ok = myo == st + co
+        B.fact('%s: parameters = sorted states then sorted literal constants'
+               % tag, ok, '%r vs %r' % (myo, st + co))
+    if not ok:
         return
     p = [B.var('p%d' % i) for i in range(n)]
     val = {myo[i]: p[i] for i in range(n)}
@@ -328,17 +336,27 @@ def check_binding(B, m, tag, times, rename=None, outputs=None, reduced=None,
 
 
 def case_generated(B, cfg):
-    path = _write(generated(cfg), 'm_%s_%d_%d_%d.xml' % (
+    path = _write(generated(cfg), 'm_%s_%d_%d_%d%s.xml' % (
         '-'.join(cfg['states']), cfg['n_const'], cfg['n_inter'],
-        int(bool(cfg.get('derived')))))
+        int(bool(cfg.get('derived'))),
+        '_' + '-'.join(cfg['const_ids']) if cfg.get('const_ids') else ''))
     try:
         m = chi.SBMLModel(path)
     finally:
         pass
     times = cfg.get('times', [0.5, 1.0, 2.5])
-    B.fact('default outputs = sorted states',
-           m.outputs() == sorted('global.' + s for s in cfg['states']),
-           repr(m.outputs()))
+    if cfg.get('mixed_case'):
+        # (which of the possible alphabetical orders applies to names that
+        # differ in capitalisation is not part of the claim: every binding
+        # below is decided through the published names)
+        B.fact('default outputs = the states',
+               sorted(m.outputs()) == sorted('global.' + s
+                                             for s in cfg['states']),
+               repr(m.outputs()))
+    else:
+        B.fact('default outputs = sorted states',
+               m.outputs() == sorted('global.' + s for s in cfg['states']),
+               repr(m.outputs()))
     rename = None
     if cfg.get('rename'):
         pub = m.parameters()
@@ -501,6 +519,20 @@ def jobs(tier):
                                 n_inter=n_inter, derived=derived,
                                 outputs=sel, rename=(k % 5 == 0),
                                 reduced=red), FACADE))
+    # names that differ in capitalisation (code-point order, case-insensitive
+    # order and declaration order all differ)
+    mixed = [['Zeta', 'beta'], ['beta', 'Zeta'], ['mu', 'Beta', 'zeta'],
+             ['Zeta', 'mu', 'Beta'], ['delta', 'Mu', 'beta', 'Zeta']]
+    for k, states in enumerate(mixed if not q else mixed[:4]):
+        for n_const in (0, 2, 3):
+            out.append(('generated', 'case_generated', dict(
+                states=states, n_const=n_const, n_inter=k % 2,
+                derived=(n_const == 3),
+                const_ids=['Rate', 'alpha', 'Kappa'], mixed_case=True,
+                outputs=[None, [0], [len(states) - 1, 0]][(k + n_const) % 3],
+                rename=(k == 1),
+                reduced=[0, 2] if len(states) + n_const >= 3 and k % 2
+                else None), FACADE))
     return out
 
 
@@ -511,7 +543,8 @@ BOUNDS = dict(
           'declaration order, 0 or 2 literal constants, 0..1 intermediate '
           'variables, with/without a derived constant; a third of the output '
           'selections (size <= 2, states and intermediates), renamings, '
-          'reduced models; 3 time points',
+          'reduced models; 12 models whose state / constant names differ in '
+          'capitalisation; 3 time points',
     thorough='1..4 states in every declaration order, 0..3 constants, 0..2 intermediates, 6 output selections each',
     outside='the integrator itself (myokit/sundials, absent in this sandbox) '
             'is an uninterpreted functional: what is decided is that chi '
